@@ -1,5 +1,6 @@
 import PedVerif.Drv.Util
 import PedVerif.Model.CheckerWF
+import PedVerif.Model.CheckerIR
 namespace PedVerif.Drv.Checker
 open Lean PedVerif.Drv PedVerif.Checker
 
@@ -101,17 +102,129 @@ def regionsEnv (env : Env) (a : Ann) : List String := if a.hasUnresolvedFwd env 
 def regions (a : Ann) (v : Val) : List String :=
   (if isStrAnn a then ["strAnn"] else []) ++
   (if v.hasNT then ["namedtuple"] else []) ++
-  (if !v.plain && !v.hasNT then ["iterator"] else []) ++
+  (if v.hasIter then ["iterator"] else []) ++
   (if a.hasEmptyTuple then ["emptyFixedTuple"] else []) ++
   (if a.hasTypeOfNonClass then ["typeOfNonClass"] else [])
 
-/-- case: {"env": …, "ann": term, "val": term} -/
+/-! ### the interpreted translation of `check_types.py` (Model/CheckerIR.lean): outcome, statement trace, and - for every node of
+    the annotation the checker looks at - the introspection record `intro` and the value of every `if` test of `_is_instance` -/
+section IR
+open PedVerif.CheckerIR PedVerif.Gen.IsInstanceIR
+open PedVerif.Gen.TypeTables (originCheckers specialCheckers)
+
+def jOptS : Option String → Json | some s => jStr s | Option.none => Json.null
+def jOptNat : Option Nat → Json | some n => jNat n | Option.none => Json.null
+def jOptB : Option Bool → Json | some b => jBool b | Option.none => Json.null
+
+mutual
+partial def iteGuardsS : Stmt → List (Nat × Guard)
+  | .ite id g thn els => (id, g) :: (iteGuardsB thn ++ iteGuardsB els)
+  | .act _ _ => []
+  | .tryCatch _ body hs => iteGuardsB body ++ iteGuardsH hs
+partial def iteGuardsB : Block → List (Nat × Guard)
+  | .nil => []
+  | .cons s rest => iteGuardsS s ++ iteGuardsB rest
+partial def iteGuardsH : Handlers → List (Nat × Guard)
+  | .nil => []
+  | .cons _ body rest => iteGuardsB body ++ iteGuardsH rest
+end
+
+/-- does the test read the value / a local of the run (then both arms are possible for a node seen without its value) -/
+partial def valueDep : Guard → Bool
+  | .not g => valueDep g
+  | .and a b | .or a b => valueDep a || valueDep b
+  | .selfUnbound | .objIsinstanceOrigin | .objHasAttr _ | .asdictKeysEqFieldKeys | .objIsIterator | .objEmptyAndArgsUnit
+  | .lenObjNeLenArgs | .matchesNonTypeVar | .hasUnboundedTypeVars | .oneUnboundedTypeVar => true
+  | _ => false
+
+def actFalls : Action → Bool
+  | .bindFieldTypes _ | .requireArg _ | .unpackArgs _ | .partitionTypeVars | .bindMatches _ _ | .forBoundedTryReturnTrue | .assertBaseIsGeneric => true
+  | _ => false
+
+mutual
+/-- the `if`s whose test the code can evaluate on this annotation object whatever the value is: (ids, may run off the end) -/
+partial def reachS (F : Frame) : Stmt → List Nat × Bool
+  | .act _ a => ([], actFalls a)
+  | .ite id g thn els =>
+      let t := reachB F thn
+      let e := reachB F els
+      if valueDep g then (id :: (t.1 ++ e.1), t.2 || e.2)
+      else match evalG (ext callDepth) F {} g with
+        | Option.none => ([id], false)
+        | some true => (id :: t.1, t.2)
+        | some false => (id :: e.1, e.2)
+  | .tryCatch _ body hs => ((reachB F body).1 ++ reachH F hs, true)
+partial def reachB (F : Frame) : Block → List Nat × Bool
+  | .nil => ([], true)
+  | .cons s rest =>
+      let a := reachS F s
+      if a.2 then (let b := reachB F rest; (a.1 ++ b.1, b.2)) else a
+partial def reachH (F : Frame) : Handlers → List Nat
+  | .nil => []
+  | .cons _ body rest => (reachB F body).1 ++ reachH F rest
+end
+
+def introJson (env : Env) (I : Intro) (v : Val) (top : Bool) : List (String × Json) :=
+  let F : Frame := { env := env, I := I, v := v }
+  let gs := iteGuardsB isInstanceProg ++ (if top then iteGuardsB checkTypeProg else [])
+  let reach := (reachB F isInstanceProg).1 ++ (if top then (reachB F checkTypeProg).1 else [])
+  [("isNone", jBool I.isNone), ("strName", jOptNat I.strName), ("name", jOptS I.name), ("nargs", jNat I.nargs), ("module", jOptB I.module),
+   ("isGeneric", jBool I.isGeneric), ("originName", jOptS I.originName), ("isUnionType", jBool I.isUnionType), ("eqTyping", jOptS I.eqTyping),
+   ("isTypeVar", jBool I.isTypeVar), ("originEqTyping", jOptS I.originEqTyping), ("originCls", jOptNat I.originCls),
+   ("originChecker", jOptS (I.basePath.bind (lookupS originCheckers))), ("specialChecker", jOptS (I.originName.bind (lookupS specialCheckers))),
+   ("isFwdRef", jBool I.isFwdRef), ("fwdName", jNat I.fwdName), ("isNewTypeInst", jBool I.isNewTypeInst),
+   ("qualnameIsNewType", jOptB I.qualnameIsNewType), ("supertype", jNat I.supertype), ("hasFieldTypes", jBool I.hasFieldTypes),
+   ("annotations", match I.annotations with | some ns => jArr (ns.map jNat) | Option.none => Json.null), ("builtin", jOptS I.builtin),
+   ("isGenericAlias", jBool I.isGenericAlias), ("convertOk", jBool I.convertOk), ("asClass", jOptNat I.asClass),
+   ("isProtocolMeta", jBool I.isProtocolMeta), ("ellipsis", jBool I.ellipsis),
+   ("requiredOk", jBool (reqOk I.name I.nargs)), ("isForwardRef", jOptB (predOf "_is_forward_ref" F)), ("isNewType", jOptB (predOf "_is_type_new_type" F)),
+   -- every `if` test the code can reach on this object (whatever the value), with the value the interpreter gives it
+   ("guards", jArr ((gs.filter fun (id, _) => reach.contains id).map fun (id, g) => jArr [jNat id, jOptB (evalG (ext callDepth) F {} g)]))]
+
+/-- the nodes `_is_instance` is (or may be) called on, with the way to reach the object from the top-level annotation:
+    "conv" = convert_to_typing_types, ["arg", i] = get_type_arguments(..)[i], ["field", i] = i-th value of `__annotations__` -/
+partial def nodesOf (env : Env) (pc : Bool) (a : Ann) (path : List Json) : List (List Json × Bool × Ann) :=
+  let I := intro env pc a
+  let arg (i : Nat) : List Json := path ++ [jArr [jStr "arg", jNat i]]
+  let many (pc' : Bool) (as : List Ann) (tag : String) : List (List Json × Bool × Ann) :=
+    (as.zipIdx.map fun (x, i) => nodesOf env pc' x (path ++ [jArr [jStr tag, jNat i]])).flatten
+  (path, pc, a) ::
+    (if I.isGenericAlias then (if I.convertOk then nodesOf env true a (path ++ [jStr "conv"]) else [])
+     else match a with
+      | .union _ ms => many false ms "arg"
+      | .clsF _ _ anns => many false anns "field"
+      | .seq sp0 _ e => nodesOf env (sp0 == .pep585) e (arg 0)
+      | .map sp0 _ k w => nodesOf env (sp0 == .pep585) k (arg 0) ++ nodesOf env (sp0 == .pep585) w (arg 1)
+      | .tuple sp0 items => many (sp0 == .pep585) items "arg"
+      | .tupleVar sp0 e => nodesOf env (sp0 == .pep585) e (arg 0)
+      | _ => [])
+
+def rawStr : Raw → String
+  | .ok true => "true" | .ok false => "false" | .raisedPed => "raisedPed" | .raisedTV => "raisedTV" | .raisedOther => "raisedOther"
+
+def isSpecial : Ann → Bool | .special _ => true | _ => false
+
+/-- `full = false`: outcome and statement trace only -/
+def irFields (env : Env) (a : Ann) (v : Val) (full : Bool) : List (String × Json) :=
+  let orc : Nat → Val → Raw := fun _ _ => .raisedOther
+  let r := interpCheckType env orc a v
+  [("irOut", jStr (outStr (toOut r.raw))), ("irTrace", jArr (r.trace.map jNat)),
+   ("irRaw", jStr (rawStr (interpIsInstance env orc false a v).raw)), ("handRaw", jStr (rawStr (isInstance env orc false a v)))] ++
+  (if !full then [] else
+   [("intros", if isSpecial a then jArr [] else
+      jArr ((nodesOf env false a []).map fun (path, pc, n) =>
+        mkObj ([("path", jArr path), ("pc", jBool pc)] ++ introJson env (intro env pc n) v path.isEmpty)))])
+end IR
+
+/-- case: {"env": …, "ann": term, "val": term, "ir"?: true | "trace"} -/
 def handle (c : Json) : Json :=
   let env := parseEnv (jF c "env")
   let a := parseAnn (jF c "ann")
   let v := parseVal (jF c "val")
   let o := checkType env (fun _ _ => .raisedOther) a v
-  mkObj [("out", jStr (outStr o)), ("spec", jBool (conforms env a v)), ("inVocab", jBool a.inVocab),
-         ("plain", jBool v.plain), ("wf", jBool (v.wf env)), ("regions", jArr ((regions a v ++ regionsEnv env a).map jStr))]
+  mkObj ([("out", jStr (outStr o)), ("spec", jBool (conforms env a v)), ("inVocab", jBool a.inVocab),
+         ("plain", jBool v.plain), ("wf", jBool (v.wf env)), ("strAnnOk", jBool (a.strAnnOk env v)), ("noSpecial", jBool a.noSpecial),
+         ("underC01", jBool (underSound env a v)), ("regions", jArr ((regions a v ++ regionsEnv env a).map jStr))]
+         ++ (if jB (jF c "ir") then irFields env a v true else if jS (jF c "ir") == "trace" then irFields env a v false else []))
 
 end PedVerif.Drv.Checker
